@@ -16,7 +16,7 @@ LEVEL_NOTE = "Trusted: numpy RNG and scipy.stats/scipy.integrate used as referen
 TECHNIQUE = "runtime monitoring: generated priors and operator expressions through the real classes; reference-model oracle (expression tree re-evaluation, textbook densities, KS/moment tests)"
 RULE = ("dens: Uniform/Gaussian/BoundedGaussian/ComplexPrior with bounds, means, widths log-uniform over 1e-12..1e12 "
         "(both signs, half-infinite), evaluated at bounds, +-1ulp, interior and far points; samp: sizes None/1/n and "
-        "2e5-draw distribution tests; expr: random operator/ufunc trees; laws: identities, annihilators, rejections. "
+        "2e5-draw distribution tests; expr: random operator/ufunc trees; laws: identities, annihilators, rejections (every ufunc, numpy bools, complex / infinite / single-precision parameters). "
         "non-trivial = >=1 residual or flag evaluated; distinct by rounded case JSON")
 ASSUMPTIONS = ["Uniform with an infinite bound is improper by design: prob 0, lnprob -1e6 (not flagged)",
                "BoundedGaussian densities are unnormalised by documentation; only support and shape are checked",
